@@ -271,6 +271,8 @@ def _handle_exc(exc, call, what):
     discard(f"lib-raised:{type(exc).__name__}@{fr[2]}")
 
 
+CONSTRAINT_KEYS = {"non_negative", "l1_reg", "l2_reg", "l2_square_reg", "unimodality", "normalize", "simplex",
+                   "normalized_sparsity", "soft_sparsity", "smoothness", "monotonicity", "hard_sparsity"}
 _RO_MSG = ("assignment destination is read-only", "output array is read-only")
 
 
@@ -304,7 +306,9 @@ def c15_oracle(entry, case):
                     kind = "write"
                 else:
                     kind = "other"
-                raise Fail(f"modified:{k}:{kind}", f"{entry.name} {how}; {d}")
+                base = k.split(".")[-1]
+                ck = k[: len(k) - len(base)] + "<constraint-kw>" if base in CONSTRAINT_KEYS else k   # one bucket for the 12 keywords
+                raise Fail(f"modified:{ck}:{kind}", f"{entry.name} {how}; {d}")
         lab = None
         if exc is not None:
             lab = _handle_exc(exc, call, "first")
